@@ -94,7 +94,7 @@ def welzl(case):
 
 
 PREDICATES = {'box_not_symmetric_about_equator': asym_box, 'wedge_straddles_antimeridian': wedge_straddles,
-              'welzl_fixed_replay': welzl}
+              'welzl_fixed_replay': welzl, 'welzl_vertex_at_180': lambda case: False}   # (D50 is replayed, never met by the corpora: they keep 0.001 deg away from +-180)
 
 
 def true_extent_curve(center, radius_fn, a0, a1, n=3600):
@@ -656,6 +656,34 @@ def main():
     ck.cov['fixed_corpus_cases'] = corpus_n
     ck.cov['welzl_corpus_disagreements'] = welzl_bad[:10]
 
+    # ---------------- D49 regression family (mechanism class: anything in bounds / rectangle / circle that depends on how many
+    # ordinates a vertex reports): vertex shapes whose vertices ALL carry a non-zero Z, an M, or both, against their 2-D twins
+    zm_n = 0
+    for j in range(24 if ck.tier == 'quick' else 240):
+        zm = [dict(z=1.5), dict(m=2.0), dict(z=-3.0, m=7.0), dict(z=1e-9)][j % 4]
+        pv, lv = star_polygon(rng, rng.randint(3, 7)), rand_pts(rng, rng.randint(2, 6))
+        def CZ(p_):
+            return Coordinate(p_[0] / 2, p_[1] / 2, **zm)
+        pairs = [('polygon', lambda: GeoPolygon([CZ(p_) for p_ in pv + pv[:1]]), lambda: GeoPolygon([C2(p_) for p_ in pv + pv[:1]])),
+                 ('linestring', lambda: GeoLineString([CZ(p_) for p_ in lv]), lambda: GeoLineString([C2(p_) for p_ in lv])),
+                 ('multi-linestring', lambda: MultiGeoLineString([GeoLineString([CZ(p_) for p_ in lv]), GeoLineString([CZ(p_) for p_ in pv])]),
+                  lambda: MultiGeoLineString([GeoLineString([C2(p_) for p_ in lv]), GeoLineString([C2(p_) for p_ in pv])])),
+                 ('wedge', lambda: GeoRing(CZ(pv[0]), 500.0, 4000.0, angle_min=20.0, angle_max=20.0 + 10 * (j % 30 + 1)),
+                  lambda: GeoRing(C2(pv[0]), 500.0, 4000.0, angle_min=20.0, angle_max=20.0 + 10 * (j % 30 + 1)))]
+        for kind_, mk3, mk2 in pairs:
+            zm_n += 1
+            try:
+                A, B2 = mk3(), mk2()
+                got = (A.bounds, A.circumscribing_rectangle().bounds, round(A.circumscribing_circle().radius, 6))
+                want = (B2.bounds, B2.circumscribing_rectangle().bounds, round(B2.circumscribing_circle().radius, 6))
+            except Exception as ex:   # noqa
+                got, want = repr(ex), 'no exception'
+            if got != want:
+                prop_viol.append({'clause': 'bounds / circumscribing rectangle / circle of a shape whose vertices all carry Z or M equal those of its 2-D twin',
+                                  'kind': kind_, 'ordinates': zm, 'polygon': pv, 'line': lv, 'observed': str(got)[:300], 'expected': str(want)[:300]})
+    corpus_n += zm_n
+    ck.cov['zm_vertex_twins'] = zm_n
+
     # ---------------- known findings: deterministic replays
     for f in ck.findings:
         if f['status'] != 'open':
@@ -669,6 +697,15 @@ def main():
             W = GeoRing(Coordinate(*rp['center']), rp['inner'], rp['outer'], angle_min=rp['angle_min'], angle_max=rp['angle_max'])
             b = W.bounds
             if b[2] - b[0] > 180:
+                ck.known(f)
+        elif f['signature'] == 'welzl_vertex_at_180':
+            # smallest-circle / seed-independence clause: the same polygon gets the antipodal cap under one seed and the
+            # smallest circle under another
+            radii = {}
+            for key in ('seed_bad', 'seed_good'):
+                pyrandom.seed(rp[key])
+                radii[key] = GeoPolygon([Coordinate(*p) for p in rp['polygon']]).circumscribing_circle().radius
+            if radii['seed_bad'] > 10 * rp['smallest_radius_m'] and abs(radii['seed_good'] - rp['smallest_radius_m']) < 0.01 * rp['smallest_radius_m']:
                 ck.known(f)
         elif f['signature'] == 'welzl_fixed_replay':
             P = GeoPolygon([Coordinate(*p) for p in rp['polygon']])
